@@ -16,6 +16,8 @@ pub use crate::calendars::calendar_py::verif_hooks as calendar_py;
 pub use crate::curves::curve_py::verif_hooks::CurveH;
 /// The Python-facing operator table of `Dual` / `Dual2` (`rust/dual/dual_py.rs`).
 pub use crate::dual::dual_py::verif_hooks as dual_py;
+/// The Python-facing linear solvers `_dsolve1` / `_dsolve2` (`rust/dual/linalg_py.rs`).
+pub use crate::dual::linalg_py::verif_hooks as linalg_py;
 /// The Python-facing attributes and methods of `Ccy` / `FXRate` / `FXRates` (`rust/fx/rates_py.rs`).
 pub use crate::fx::rates_py::verif_hooks as rates_py;
 /// The Python-facing methods of `PPSplineF64` / `PPSplineDual` / `PPSplineDual2` (`rust/splines/spline_py.rs`).
